@@ -513,10 +513,38 @@ def run_containers(c):
             "pickle": _render(lambda: root.dumps(format="pickle", sensitive_mask=mask)),
             "jsonV": _render(lambda: root.dumps(format="json", virtual=True, sensitive_mask=mask)),
             "pickleV": _render(lambda: root.dumps(format="pickle", virtual=True, sensitive_mask=mask)),
-            "jsonV_ref": _render(lambda: root.dumps(format="json", virtual=True))}
+            "jsonV_ref": _render(lambda: root.dumps(format="json", virtual=True)),
+            "jsonF": _saved(root, c["_tmp"], "xc", "json", sensitive_mask=mask),
+            "pickleF": _saved(root, c["_tmp"], "xc", "pickle", sensitive_mask=mask),
+            "jsonVF": _saved(root, c["_tmp"], "xcv", "json", virtual=True, sensitive_mask=mask),
+            "pickleVF": _saved(root, c["_tmp"], "xcv", "pickle", virtual=True, sensitive_mask=mask)}
+
+
+def _saved(root, tmp, tag, fmt, **kw):
+    """the FILE route: root.save(path, format=fmt, **kw) into the case's temp dir; ("ok", file bytes) / ("err", kind)"""
+    import os
+    path = os.path.join(tmp, "%s.%s" % (tag, fmt))
+    try:
+        root.save(path, format=fmt, **kw)
+        with open(path, "rb") as fp:
+            return ("ok", fp.read())
+    except Exception as e:  # noqa
+        return ("err", _base.errkind(e))
 
 
 def impl(c):
+    import shutil
+    import tempfile
+    tmp = tempfile.mkdtemp(prefix="verif_mask_")
+    try:
+        c["_tmp"] = tmp
+        return _impl(c)
+    finally:
+        c.pop("_tmp", None)
+        shutil.rmtree(tmp, ignore_errors=True)
+
+
+def _impl(c):
     from cincoconfig.core import ConfigFormat
     r = _base.impl(c)                     # builds the schema and the configuration, runs the history (stashes _root)
     if r[0] != "ok":
@@ -542,6 +570,10 @@ def impl(c):
                 d["ref_back"] = _render(lambda: formatter.loads(root, d["ref"][1]))
         if d["doc"][0] == "ok":
             d["back"] = _render(lambda: formatter.loads(root, d["doc"][1]))
+        d["file"] = _saved(root, c["_tmp"], "masked", fmt, sensitive_mask=mask)
+        d["file_nomask"] = _saved(root, c["_tmp"], "plain", fmt)
+        if d["file"][0] == "ok":
+            d["file_back"] = _render(lambda: formatter.loads(root, d["file"][1]))
         docs[fmt] = d
     c["_docs"] = docs
     if c.get("ctype"):
@@ -586,24 +618,19 @@ def same_doc(a, b):
 
 def check_cfg(fields, cfg, plain, masked, mask, path, bad, secrets, publics, virtual=False, in_list=False, notes=None):
     """cfg: the real configuration; plain / masked: its two renderings (both made with the same `virtual` flag).
-    Virtual fields are not stored: present in a rendering iff virtual=True was asked -- except that, WITHOUT a mask, the
-    items of a list are rendered by ListField.to_basic -> item.to_tree(), which does not pass `virtual` on (the other
-    half of F5, outside C10): there either form is accepted and noted."""
+    Virtual fields are not stored: present in a rendering iff virtual=True was asked, at every depth and in list items,
+    with and without a mask (F55 repaired)."""
     data = cfg._data
     decl = dict(fields)
     dyn = [k for k in cfg._fields if k in data and k not in decl]
 
     def keys(with_virtual):
         return [k for k, nd in fields if (nd["t"] == "virt" and with_virtual) or (nd["t"] != "virt" and k in data)] + dyn
-    for name, t, optional in (("unmasked", plain, in_list), ("masked", masked, in_list and mask is None)):
+    for name, t in (("unmasked", plain), ("masked", masked)):
         if not isinstance(t, dict):
             bad.append("%s rendering of configuration %r is not a map: %r" % (name, path, t))
             return
         if list(t) != keys(virtual):
-            if virtual and optional and list(t) == keys(False):
-                if notes is not None and keys(True) != keys(False):
-                    notes.add("virtual-dropped-in-list-item-without-mask")
-                continue
             bad.append("%s rendering of %r (virtual=%r) has keys %r, expected %r" % (name, path, virtual, list(t), keys(virtual)))
             return
     for k in keys(virtual):
@@ -794,8 +821,13 @@ def oracle(c, obs):
                 bad += ["container variant (virtual=%r): %s" % (virtual, m) for m in vbad]
                 if mask is None and not same(v[kp][1], v[km][1]):
                     bad.append("container variant: sensitive_mask=None changed the tree (virtual=%r)" % virtual)
+                for fmt in docs:                                # the file route writes exactly the document
+                    if v[fmt][0] != v[fmt + "F"][0] or (v[fmt][0] == "ok" and v[fmt][1] != v[fmt + "F"][1]):
+                        bad.append("container variant: the file written by save(%s, virtual=%r, sensitive_mask=%r) is not the dumps document" % (
+                            fmt.rstrip("V"), virtual, mask))
                 if mask is None:
                     continue
+                docs = docs + tuple(f + "F" for f in docs)
                 vtext = []
                 flat_text(vpub, vtext)
                 all_keys(xfields, vtext)
@@ -829,6 +861,8 @@ def oracle(c, obs):
             continue
         if doc[0] != "ok":
             c.setdefault("_fmt_reject", []).append(fmt)      # value outside the format's domain (bytes in JSON ...): both refuse
+            if d.get("file") is not None and d["file"][0] == "ok":
+                bad.append("save(%s, sensitive_mask=%r) wrote a file although dumps raised %r" % (fmt, mask, doc[1]))
             continue
         if doc[1] != ref[1]:
             bad.append("dumps(%s, sensitive_mask=%r) is not the formatter's document of to_tree(sensitive_mask=%r)" % (fmt, mask, mask))
@@ -850,6 +884,30 @@ def oracle(c, obs):
                     bad.append("the %s document written with mask %r contains the value of sensitive field %s" % (fmt, mask, p))
         elif d["doc_nomask"][0] == "ok" and d["doc_nomask"][1] != doc[1]:
             bad.append("dumps(%s, sensitive_mask=None) differs from dumps(%s)" % (fmt, fmt))
+        # the file route: save(path, format, sensitive_mask=mask) writes exactly that document
+        f, fb = d.get("file"), d.get("file_back")
+        if f is not None:
+            if f[0] != "ok":
+                bad.append("save(%s, sensitive_mask=%r) raised %r although dumps succeeded" % (fmt, mask, f[1]))
+            else:
+                c.setdefault("_files", []).append(fmt)
+                if f[1] != doc[1]:
+                    bad.append("the file written by save(%s, sensitive_mask=%r) is not dumps(%s, sensitive_mask=%r)" % (fmt, mask, fmt, mask))
+                if fb is None or fb[0] != "ok":
+                    bad.append("the library cannot parse the %s file it saved: %r" % (fmt, fb))
+                elif not same_doc(fb[1], masked[1]) and fmt in c.get("_fmt_faithful", []):
+                    bad.append("%s file saved with mask %r decodes to %r, to_tree gives %r" % (fmt, mask, fb[1], masked[1]))
+                if mask is not None:
+                    for p, s in secrets:
+                        if any(s in t for t in pub_text):
+                            continue
+                        if s.encode("utf-8") in f[1]:
+                            bad.append("the %s file saved with mask %r contains the value of sensitive field %s" % (fmt, mask, p))
+            fn = d.get("file_nomask")
+            if fn is not None and fn[0] == "ok" and d["doc_nomask"][0] == "ok" and fn[1] != d["doc_nomask"][1]:
+                bad.append("the file written by save(%s) is not dumps(%s)" % (fmt, fmt))
+            if mask is None and fn is not None and f[0] == "ok" and fn[0] == "ok" and f[1] != fn[1]:
+                bad.append("save(%s, sensitive_mask=None) differs from save(%s)" % (fmt, fmt))
     c["_nsecrets"] = len(secrets)
     return bad
 
@@ -901,6 +959,8 @@ def tags(c, obs):
             t.add("%s:%s" % (key[1:], fmt))
     if c.get("_secrets_checked"):
         t.add("secret-bytes-searched")
+    for fmt in c.get("_files", []):
+        t.add("file-saved:" + fmt)
     v = c.get("_containers")
     if v is not None:
         t.add("container-variant" if "root" in v else "container-variant-ctor-rejected")
